@@ -324,6 +324,40 @@ def pad_table_cases(res):
                 res.violate(c, 'padding for %r at offset %d is %r, specification says %r' % (code, off, p, want), 'alignment-rule')
 
 
+NONCONFORMING = [   # (signature, values): values the signature does not describe; model and code must still agree on Ok / Err (and bytes)
+    ('b', [2]), ('b', [-1]), ('b', [255]), ('b', [None]), ('b', ['']), ('b', ['x']), ('b', [[]]), ('b', [[0]]),
+    ('y', [256]), ('y', [-1]), ('n', [32768]), ('q', [-1]), ('i', [2 ** 31]), ('u', [-1]), ('u', [2 ** 32]), ('x', [2 ** 63]), ('t', [-1]),
+    ('i', ['7']), ('u', [None]), ('s', [5]), ('s', [None]), ('s', ['a\x00b']), ('o', ['a']), ('o', ['/a/']), ('g', ['y' * 256]),
+    ('ai', [5]), ('ai', [['x']]), ('(ii)', [[1]]), ('(ii)', [[1, 2, 3]]), ('a{si}', [[1, 2]]), ('ii', [1]), ('i', [1, 2]), ('v', [None]),
+]
+
+
+def evaluate_nonconforming(ctx, res):
+    """correspondence only (no property oracle: the property is about conforming values): how the encoder treats values
+    that do NOT conform to the signature is part of the code the model mirrors"""
+    from txdbus import marshal
+    lines, impls = [], []
+    for sig, vals in NONCONFORMING:
+        for le in (True, False):
+            impls.append((sig, vals, le, run_impl_marshal(marshal, sig, vals, 0, le, None)))
+            lines.append('(1 1 %s %s %d %d %s)' % (common.dump(sig.encode()), common.dump([5, [mc.pv_form(v) for v in vals]]), 0, le,
+                                                 common.dump([])))
+    outs = common.run_model(lines)
+    skipped = 0
+    for (sig, vals, le, im), o in zip(impls, outs):
+        mo = model_m(o)
+        if mo[0] == 'err' and mo[1] == 9:         # EUnmodelled: a Python shape the model does not represent
+            skipped += 1
+            continue
+        c = {'kind': 'nonconforming', 'sig': sig, 'vals': repr(vals), 'le': le}
+        res.count(c, nontrivial=True)
+        a = ('ok', im[1], bytes(im[2])) if im[0] == 'ok' else ('err',)
+        b = ('ok', mo[1], bytes(mo[2])) if mo[0] == 'ok' else ('err',)
+        if a != b:
+            res.disagree(c, [a[0]] + ([a[1], a[2].hex()] if a[0] == 'ok' else []), [b[0]] + ([b[1], b[2].hex()] if b[0] == 'ok' else []))
+    res.extra['nonconforming_unmodelled_skipped'] = skipped
+
+
 def evaluate_large(ctx, cases, res):
     """kind 'large': arrays whose data is 2^26 bytes (the DBus limit for an array) or just below - far too long for the
     extracted model (unary offsets); judged by the property's own oracle alone: the decoder returns the values and
@@ -350,6 +384,7 @@ def evaluate_large(ctx, cases, res):
 
 
 def run(ctx, res):
+    evaluate_nonconforming(ctx, res)
     evaluate_large(ctx, [{'kind': 'large', 'array_bytes': nb, 'le': le} for nb in (2 ** 26 - 4, 2 ** 26) for le in (True, False)], res)
     res.rule = ('typed cases: every signature of <= %d characters from the grammar with canonical values x offsets 0-7 x both '
                 'byte orders%s, random nested signatures (depth <= 4, 1-4 top-level types) with boundary-biased values in random '
